@@ -1089,4 +1089,175 @@ Proof.
       specialize (S (HO l' A A2)). exact S.
     + inversion Hr; subst. exact I.
 Qed.
+
+(* ---- one call of LZ4F_decompress ---- *)
+(* between two calls: inside a frame, or at the start of a frame (skipChecksum not yet raised) *)
+Definition at_start (s : dstate) : Prop :=
+  d_stage s = GetFrameHeader /\ d_remaining s = 0 /\ d_hist s = dict /\ d_skip s = false.
+Definition BInv (p O : list byte) (s : dstate) : Prop := CInv p O s \/ (p = [] /\ O = [] /\ at_start s).
+
+Lemma CInv_skip p O s : CInv p O s -> in_skip (d_stage s) = false -> d_skip s = skip.
+Proof.
+  intros C Hn. destruct C; auto;
+    try match goal with B : binv _ _ _ _ _ _ |- _ => solve [destruct B as (_ & _ & B & _); exact B] end.
+  - match goal with B : binv _ _ _ _ _ (do_init _) |- _ => destruct B as (_ & _ & B & _) end.
+    destruct (do_init_fields s) as (_ & _ & I3 & _). rewrite <- I3. assumption.
+  - match goal with B : gbinv _ _ _ _ _ |- _ => destruct B as (_ & _ & B & _); exact B end.
+  - congruence.
+Qed.
+Lemma set_skip_id s : set_skip s (d_skip s || d_skip s) = s.
+Proof. destruct s. unfold set_skip. simpl. rewrite orb_diag. reflexivity. Qed.
+
+Lemma CInv_enter p O s : BInv p O s -> CInv p O (set_skip s (d_skip s || skip)).
+Proof.
+  intros [C|(-> & -> & H1 & H2 & H3 & H4)].
+  - destruct (in_skip (d_stage s)) eqn:E.
+    + destruct C; try (rewrite H in E; discriminate E). apply C_skip; ss; auto.
+    + pose proof (CInv_skip _ _ _ C E) as K.
+      assert (Q : set_skip s (d_skip s || skip) = s) by (rewrite <- K; apply set_skip_id). rewrite Q. exact C.
+  - apply C_start; ss; auto. rewrite H4. reflexivity.
+Qed.
+
+Lemma zdrop_app_exact (x r : list byte) : zdrop (zlen x) (x ++ r) = r.
+Proof.
+  unfold zdrop, zlen. rewrite Nat2Z.id. rewrite skipn_app, Nat.sub_diag, skipn_all. reflexivity.
+Qed.
+
+Lemma call_chunk s src cap o p O :
+  o_skip o = skip -> wf s -> BInv p O s -> bytes_ok src = true -> 0 <= cap ->
+  let s' := fst (decompress bdec s src cap o) in
+  let r := snd (decompress bdec s src cap o) in
+  0 <= r_ret r -> zlen O + zlen (r_out r) < 18446744073709551616 ->
+  exists x rest, src = x ++ rest /\ r_consumed r = zlen x /\ wf s' /\
+                 if r_ret r =? 0 then Fin (p ++ x) (O ++ r_out r) else BInv (p ++ x) (O ++ r_out r) s'.
+Proof.
+  intros Hsk Hwf HB Hb Hc. unfold decompress. rewrite Hsk.
+  pose proof (CInv_enter _ _ _ HB) as C.
+  set (s1 := set_skip s (d_skip s || skip)) in *.
+  assert (W1 : wf s1) by (apply wf_set_skip; exact Hwf).
+  set (l0 := mkL s1 src 0 [] cap).
+  destruct (run bdec (call_fuel src) o l0) as [l' f] eqn:ER.
+  pose proof (run_post bdec o _ l0 l' f W1 Hc ER) as (A0 & _ & NF & R0).
+  pose proof (zlen_nonneg src) as Hl.
+  destruct f as [h|v|]; cbn [fst snd r_ret r_out r_consumed].
+  - intros Hh Hlen.
+    pose proof (run_chunk o _ l0 l' (FStop h) p O C W1 Hb Hc ER) as R. unfold l0 in R at 1 2. cbn [l_out l_src] in R.
+    specialize (R ltac:(unfold zlen at 3; simpl length; lia)). unfold runr in R. cbn [app] in R.
+    destruct R as (x & y & R1 & R2 & R3 & R4). unfold l0 in R1, R2. cbn [l_src l_out app] in R1, R2.
+    exists x, (l_src l'). split; [exact R1|]. split.
+    + unfold acct, l0 in A0. cbn [l_used l_src] in A0. rewrite R1, zlen_app in A0. lia.
+    + split; [apply R0|]. rewrite R2. destruct (h =? 0); [exact R4|left; exact R4].
+  - intros Hv _. destruct R0 as [R0|(Z0 & St & W & Pv)]; [lia|].
+    (* the only return value >= 0 from inside the loop: no input at the start of a frame *)
+    unfold l0 in Z0, St. cbn [l_src l_s] in Z0, St.
+    assert (src = []) by (apply zlen0_nil; exact Z0). subst src.
+    replace (call_fuel []) with 16%nat in ER by reflexivity. cbn [run] in ER.
+    unfold iter in ER. replace (d_stage (l_s l0)) with GetFrameHeader in ER by (symmetry; exact St).
+    unfold do_getFrameHeader in ER. unfold l0 in ER at 1 2. cbn [l_src] in ER.
+    change (FD_maxFHSize <=? zlen []) with false in ER. change (zlen [] =? 0) with true in ER. cbv iota in ER.
+    inversion ER; subst l' v. clear ER.
+    exists [], []. split; [reflexivity|]. split; [reflexivity|]. split; [exact W|].
+    change (FD_minFHSize =? 0) with false. cbv iota. ss. rewrite !app_nil_r. left.
+    destruct C; try congruence; try (rewrite St in *; discriminate).
+    apply C_start; ss; auto.
+  - intros _ _. exfalso. apply NF; [|reflexivity]. unfold mu, call_fuel, l0; ss. pose proof (rank_range (d_stage s1)). lia.
+Qed.
 End Chunk.
+
+(* ---- a byte string driven through the decoder in pieces ---- *)
+(* chunk sizes [ns], capacities [caps]; what a call does not consume is offered again *)
+Inductive verdict := VComplete (content : list byte) (consumed : Z) | VError | VMore.
+Fixpoint drive (bdec : list byte -> list byte -> option (list byte)) (o : dopts) (fuel : nat)
+         (s : dstate) (data : list byte) (ns caps : list Z) (acc : list byte) (pos : Z) : verdict :=
+  match fuel, ns, caps with
+  | S f, n :: ns', cap :: caps' =>
+      let '(s', r) := decompress bdec s (ztake n data) cap o in
+      if r_ret r <? 0 then VError
+      else if r_ret r =? 0 then VComplete (acc ++ r_out r) (pos + r_consumed r)
+      else drive bdec o f s' (zdrop (r_consumed r) data) ns' caps' (acc ++ r_out r) (pos + r_consumed r)
+  | _, _, _ => VMore
+  end.
+
+Section Drive.
+Variable bdec : list byte -> list byte -> option (list byte).
+Variable o : dopts.
+Variable dict : list byte.
+
+Lemma drive_extends : forall k s data ns caps acc pos content consumed,
+  drive bdec o k s data ns caps acc pos = VComplete content consumed -> exists y, content = acc ++ y.
+Proof.
+  induction k as [|k IH]; intros s data ns caps acc pos content consumed H; [discriminate H|].
+  destruct ns as [|n ns]; [discriminate H|]. destruct caps as [|cap caps]; [discriminate H|].
+  cbn [drive] in H. destruct (decompress bdec s (ztake n data) cap o) as [s' r].
+  destruct (r_ret r <? 0); [discriminate H|].
+  destruct (r_ret r =? 0).
+  - inversion H; subst. eexists; reflexivity.
+  - destruct (IH _ _ _ _ _ _ _ _ H) as [y Hy]. exists (r_out r ++ y). rewrite Hy, app_assoc. reflexivity.
+Qed.
+
+Lemma drive_chunk : forall k s data ns caps acc pos p O content consumed,
+  wf s -> BInv bdec (o_skip o) dict p O s -> bytes_ok data = true -> Forall (fun c => 0 <= c) caps ->
+  drive bdec o k s data ns caps acc pos = VComplete content consumed ->
+  zlen O + (zlen content - zlen acc) < 18446744073709551616 ->
+  exists x y rest, data = x ++ rest /\ content = acc ++ y /\ consumed = pos + zlen x /\
+                   Fin bdec (o_skip o) dict (p ++ x) (O ++ y).
+Proof.
+  induction k as [|k IH]; intros s data ns caps acc pos p O content consumed Hwf HB Hb Hcaps H Hlen; [discriminate H|].
+  destruct ns as [|n ns]; [discriminate H|]. destruct caps as [|cap caps]; [discriminate H|].
+  cbn [drive] in H. inversion Hcaps as [|c0 cs0 Hc Hcaps']; subst.
+  destruct (bytes_ok_split n _ Hb) as [Hb1 Hb2].
+  pose proof (call_chunk bdec (o_skip o) dict s (ztake n data) cap o p O eq_refl Hwf HB Hb1 Hc) as CC.
+  destruct (decompress bdec s (ztake n data) cap o) as [s' r]. cbn [fst snd] in CC.
+  destruct (r_ret r <? 0) eqn:Eneg; [discriminate H|]. apply Z.ltb_ge in Eneg.
+  assert (Hdata : forall x rest0, ztake n data = x ++ rest0 -> data = x ++ rest0 ++ zdrop n data).
+  { intros x rest0 E. rewrite app_assoc, <- E. symmetry. apply ztake_zdrop_app. }
+  destruct (r_ret r =? 0) eqn:E0.
+  - inversion H; subst content consumed. clear H.
+    destruct (CC Eneg ltac:(rewrite zlen_app in Hlen; lia)) as (x & rest0 & C1 & C2 & C3 & C4).
+    exists x, (r_out r), (rest0 ++ zdrop n data). split; [apply Hdata; exact C1|]. split; [reflexivity|].
+    split; [rewrite C2; reflexivity|exact C4].
+  - destruct (drive_extends _ _ _ _ _ _ _ _ _ H) as [y' Hy'].
+    assert (Hl1 : zlen O + zlen (r_out r) < 18446744073709551616).
+    { rewrite Hy', !zlen_app in Hlen. pose proof (zlen_nonneg y'). lia. }
+    destruct (CC Eneg Hl1) as (x & rest0 & C1 & C2 & C3 & C4).
+    pose proof (Hdata _ _ C1) as Hd.
+    assert (Hdrop : zdrop (r_consumed r) data = rest0 ++ zdrop n data).
+    { rewrite C2. rewrite Hd at 1. apply zdrop_app_exact. }
+    rewrite Hdrop in H.
+    assert (Hb' : bytes_ok (rest0 ++ zdrop n data) = true).
+    { rewrite Hd, bytes_ok_app in Hb. apply andb_prop in Hb. apply Hb. }
+    assert (Hlen' : zlen (O ++ r_out r) + (zlen content - zlen (acc ++ r_out r)) < 18446744073709551616).
+    { rewrite !zlen_app. lia. }
+    destruct (IH s' _ ns caps _ _ (p ++ x) (O ++ r_out r) content consumed C3 C4 Hb' Hcaps' H Hlen')
+      as (x2 & y2 & rest2 & D1 & D2 & D3 & D4).
+    exists (x ++ x2), (r_out r ++ y2), rest2.
+    split; [rewrite Hd, D1, app_assoc; reflexivity|]. split; [rewrite D2, app_assoc; reflexivity|].
+    split; [rewrite D3, C2, zlen_app; lia|]. rewrite !app_assoc. exact D4.
+Qed.
+
+(* Soundness under chunking.  From a context at the start of a frame (fresh, after a reset, or
+   after a completed frame), whatever the pieces in which the input is offered and whatever the
+   capacities: if the sequence of calls reports completion (a call returns 0), then
+   - either the bytes consumed since the start are an LZ4 frame accepted by the specification,
+     the concatenation of the outputs of all the calls is the specified content, and the total
+     consumed is the length of that frame (the rest of the input is what the specification leaves),
+   - or they are a skippable frame (nothing produced). *)
+Theorem chunked_sound : forall k s data ns caps content consumed,
+  wf s -> d_stage s = GetFrameHeader -> d_remaining s = 0 -> d_hist s = dict -> d_skip s = false ->
+  bytes_ok data = true -> Forall (fun c => 0 <= c) caps ->
+  drive bdec o k s data ns caps [] 0 = VComplete content consumed ->
+  zlen content < 18446744073709551616 ->
+  (exists rest, frame_decode bdec (o_skip o) dict data = Some (content, rest) /\ consumed = zlen data - zlen rest)
+  \/ (content = [] /\ 4 <= consumed <= zlen data /\ Z.land (rd32 data) SKIP_MASK = FD_MAGIC_SKIPPABLE_START).
+Proof.
+  intros k s data ns caps content consumed Hwf H1 H2 H3 H4 Hb Hcaps H Hlen.
+  assert (HB : BInv bdec (o_skip o) dict [] [] s) by (right; unfold at_start; auto 10).
+  destruct (drive_chunk k s data ns caps [] 0 [] [] content consumed Hwf HB Hb Hcaps H ltac:(unfold zlen at 1 3; simpl length; lia))
+    as (x & y & rest & D1 & D2 & D3 & D4).
+  cbn [app] in *. subst content. destruct D4 as [D|(D5 & D6 & D7)].
+  - left. exists rest. split; [rewrite D1; apply D|]. rewrite D3, D1, zlen_app. lia.
+  - right. split; [exact D5|]. split.
+    + rewrite D3, D1, zlen_app. pose proof (zlen_nonneg rest). lia.
+    + rewrite D1, rd32_app by exact D6. exact D7.
+Qed.
+End Drive.
